@@ -264,3 +264,80 @@ if __name__ == "__main__":
     print("binary readout", fmt_calls(S_["binary_readout"]))
     for r in S_["layered"][:12]: print("layered", r["n"], r["kind"], r["qubits"], fmt_calls(r["calls"]))
     print("layered readout n=3", fmt_calls(S_["layered"][-1]["readout"]))
+
+
+# ------------------------------------------------------------------ Coq emission
+TABLES = {"T1": 0, "T2": 1, "p": 2, "rout": 3, "tm": 4, "p_int": 5, "t_int": 6}
+
+
+class CircEmitter(st.Emitter):
+    """device-table entries at concrete positions get computable variable indices:
+    T[q] -> 1000 + 100*code(T) + q,  T[a][b] -> 3000 + 100*code(T) + 10*a + b  (a, b < 10)"""
+
+    def vid(self, name):
+        import re
+        m = re.match(r"^(\w+)\[(\d+)\]$", name)
+        if m and m.group(1) in TABLES:
+            return 1000 + 100 * TABLES[m.group(1)] + int(m.group(2))
+        m = re.match(r"^(\w+)\[(\d+)\]\[(\d+)\]$", name)
+        if m and m.group(1) in TABLES:
+            return 3000 + 100 * TABLES[m.group(1)] + 10 * int(m.group(2)) + int(m.group(3))
+        return super().vid(name)
+
+
+def emit_coq(C, S):
+    em = CircEmitter()
+    for n in ["phi[i]", "phi[k]", "t", "p_ik", "p_i", "p_k", "T1i", "T2i", "T1k", "T2k", "theta", "Dt", "tm_i", "rout_i"]:
+        em.vid(n)
+    out = ["(* GENERATED on every run by checks/circuit_trace.py from the current source of circuit.py and simulator.py. *)",
+           "From Coq Require Import QArith List String.", "Require Import QG.Sym.Expr QG.Model.Handoff.", "Import ListNotations.",
+           "Close Scope Q_scope.", "Open Scope string_scope.", ""]
+    idx = {"i": 0, "k": 1}
+    recs = []
+    for r in C["handoff"]:
+        two = r["meth"] in ("CNOT", "ECR")
+        if r["place"][0] == "row":
+            row = idx[r["place"][1]]
+            place = ([0, 1] if r["lt"] else [1, 0]) if two else [0]
+        elif r["place"][0] == "pair":
+            row = 9
+            place = [idx[x] for x in r["place"][1] if x in idx]
+        else:
+            row = 9; place = []
+        leaf = 0 if "leaf" not in r else (2 if getattr(r["leaf"], "op", "") == "leaf" else 1)   # 1 = the gate-set result, 2 = a literal matrix
+        recs.append('{| h_cls := "%s"; h_meth := "%s"; h_lt := %s; h_state := %d; h_gate := "%s"; h_args := %s; h_phi := [%s]; h_place := [%s]; h_row := %d; h_adjacent := %s; h_lit := %s |}'
+                    % (r["cls"], r["meth"], "true" if r["lt"] else "false", r["state"], r["gate"], em.exprlist(r["args"]),
+                       "; ".join("(%d, %s)" % (idx[n], em.expr(v)) for n, v in r["phi"]), "; ".join(map(str, place)), row,
+                       "true" if r["adjacent"] else "false", "true" if leaf == 2 else "false"))
+    out.append("Definition gen_handoff : list handoff :=\n  [%s]." % ";\n   ".join(recs))
+    out.append("Definition gen_subclasses : list string := [%s]." % "; ".join('"%s"' % k for k in C["inherit"]))
+
+    def arg(a):
+        if isinstance(a, Idx): return em.expr(V(a.name))
+        if isinstance(a, int): return em.expr(st.lift(a))
+        return em.expr(a)
+    items = []
+    for kind, calls in S["binary"].items():
+        items.append('("%s", [%s])' % (kind, "; ".join('("%s", [%s])' % (n, "; ".join(arg(a) for a in args)) for n, args in calls)))
+    out.append("Definition gen_sim_binary : list (string * list (string * list expr)) :=\n  [%s]." % ";\n   ".join(items))
+    out.append("Definition gen_sim_binary_readout : list (string * list expr) := [%s]." % "; ".join('("%s", [%s])' % (n, "; ".join(arg(a) for a in args)) for n, args in S["binary_readout"]))
+    lay = []
+    for r in S["layered"]:
+        lay.append('(%d%%nat, "%s", [%s], [%s], [%s])' % (r["n"], r["kind"], "; ".join("%d%%nat" % q for q in r["qubits"]),
+                   "; ".join('("%s", [%s])' % (n, "; ".join(arg(a) for a in args)) for n, args in r["calls"]),
+                   "; ".join('("%s", [%s])' % (n, "; ".join(arg(a) for a in args)) for n, args in r["readout"])))
+    out.append("Definition gen_sim_layered : list (nat * string * list nat * list (string * list expr) * list (string * list expr)) :=\n  [%s]." % ";\n   ".join(lay))
+    names = sorted(em.vars.items(), key=lambda kv: kv[1])
+    out.append("Definition gen_cvarnames : list (nat * string) :=\n  [%s]." % "; ".join('(%d, "%s")' % (i, n) for n, i in names))
+    return "\n".join(out) + "\n"
+
+
+def write_gen(path=None, nmax=4):
+    C = trace_circuits(); S = trace_simulator(nmax)
+    text = emit_coq(C, S)
+    path = path or os.path.join(COQ, "Gen", "GenCircuit.v")
+    os.makedirs(os.path.dirname(path), exist_ok=True)
+    old = open(path).read() if os.path.exists(path) else None
+    if old != text:
+        open(path, "w").write(text)
+    return C, S
